@@ -11,6 +11,7 @@
   Status codes
     P*  proved for all inputs (no validity hypothesis)
     P   proved on the validity domain
+    P°  proved on the validity domain outside one named class of inputs (stated with the cell; `…_partial` theorems)
     O   open (correspondence only)
   (C02Y: the cells that were O / P° for `intersects` — the 15 areal × areal pairs and collections with areal members — are
    now P: `Geo.Proofs.C02Y.polyPoly_common` proves the connectedness step from `polyValid` through C07X
@@ -72,22 +73,39 @@
   Ln × Ln                      `lineContainsLine`                                             P   `containsM_line_line`
                                (point-set form P*: `lineContainsLine_iff_subset`, `lineContainsLine_degenerate`)
   Ln × LS                      `lineContainsLineString`                                       P   `containsM_line_lineString`
-  LS × Ln, LS × LS             `lsContainsLine` (two-pass truncation loop), `lsContainsLs`    O   the specification side is P*
-                               (`isContains_lineString_line`: the mask ⇔ every point of the segment is on the line string), so
-                               the equality is reduced to that statement about the loop (`containsM_lineString_line_partial`);
-                               one half is proved: the loop has no false positive (`containsM_lineString_line_sound`, invariant
-                               `Geo.Proofs.C02Y.Inv` of `cutStep`); "two passes always suffice on a simple line string" is not
+  LS × Ln                      `lsContainsLine` (two-pass truncation loop)                    P°  `containsM_lineString_line_noWrap_partial`
+                               (C02Z) the specification side is P* (`isContains_lineString_line`: the mask ⇔ every point of the
+                               segment is on the line string); the loop has no false positive (P*, `containsM_lineString_line_sound`,
+                               invariant `Geo.Proofs.C02Y.Inv` of `cutStep`); COMPLETENESS (`lsContainsLine_iff_partial`,
+                               `Geo.Proofs.C02Z.sweep`): on a valid line string the FIRST pass answers `true` whenever the segment lies
+                               on the line string — for every open line string (`containsM_lineString_line_open_partial`) and every
+                               closed one whose first coordinate is not strictly inside the query (`Geo.Proofs.C02Z.noWrap`).
+                               ° excluded, correspondence only: closed line string whose first edge continues the last, the query
+                               through the closure point — only the second pass (`i < num_lines + first_cut`) finishes there
+                               (`lineString_line_wrap_witness`: the class is not empty, the code is right on the witness)
+  LS × LS                      `lsContainsLs` (proper segments of the argument → LS × Ln)     P°  `containsM_lineString_lineString_noWrap_partial`
+                               (C02Z) reduced to the loop for ALL valid operands (`containsM_lineString_lineString_loop_partial`:
+                               the mask ⇔ a point interior to both and every point of `ds` on `cs`; zero-length segments of the argument
+                               add no point, fix f55ddeac); ° the same exclusion per proper segment of the argument (`noWrapLs`)
   MPg × MPt                    `mpolyContainsMultiPoint` (no point Outside, one Inside)       P   `containsM_multiPolygon_multiPoint`
   MPg × {Ln LS Pg MLS MPg Rc Tr GC} (8 cells)  `rhs.relate(self).is_within()`                 P*  `containsM_multiPolygon_via_relate`
   Rc × Rc                      `rectContainsRect`                                             P   `containsM_rect_rect`
                                (false for degenerate operands, K7: `rectContainsRect_degenerate_witness`; point-set form
                                `rectContainsRect_iff`)
-  Rc × Pg                      `rectContainsPolygon`                                          O   (needs: a face sample inside a valid
-                               polygon whose coordinates lie in the closed box is inside the box, and "valid ⇒ signed area ≠ 0")
+  Rc × Pg                      `rectContainsPolygon`                                          P°  `containsM_rect_polygon_partial`
+                               (C02Z) Rect of positive width and height (K7), polygon empty or OGC-valid (holes included): exterior
+                               coordinate outside the Rect ⇒ a vertex located in B and outside A; all inside ⇒ every point and every
+                               face sample of the polygon is in the Rect (`windingE_in_box`: winding number about a perturbed point
+                               beside the coordinate box) and a face sample beside a shell edge is interior to both.
+                               P at full strength when some exterior coordinate is strictly inside the Rect
+                               (`containsM_rect_polygon_inner_partial`); ° otherwise (all exterior coordinates on the boundary of the
+                               Rect) under the hypothesis "valid ⇒ signed area ≠ 0" (`harea`; not proved, correspondence only)
   the remaining 66 cells       `impl_contains_from_relate!`: `relate(a, b).is_contains()`     P*  `containsM_via_relate`
                                (the mask on the matrix by definition; that `relate` computes the specification's matrix is C01)
 
-  Summary contains: 97 cells P / P* (74 by definition through `relate`), 3 cells O (LS × Ln, LS × LS, Rc × Pg).
+  Summary contains: 97 cells P / P* (74 by definition through `relate`), 3 cells P° (C02Z: LS × Ln, LS × LS — all inputs but
+  "closed line string, query through the closure point"; Rc × Pg — all inputs but "every exterior coordinate on the boundary of the
+  Rect", there modulo `valid ⇒ signed area ≠ 0`); no cell is left to the correspondence alone.
   What makes the proved hand-written cells work: for a second operand without areal member the mask `T*****FF*` on the
   specification is a point-set statement (`isContains_iff_point_set`: some point interior to both, every point of B in A —
   face samples are outside such a B); for Rect × Rect the face samples are located exactly (`rect_windingE`).
